@@ -121,11 +121,11 @@ def families(tier):
 
     # F3: n = 3, every graph with ordered import lists in which a and b together reach every module, history [a,a,b,b], immediate loader
     g3 = [imp for imp in graphs(3) if all_reachable(3, imp, ["a", "b"])]
-    behs3 = all_behs(3) if thorough else [b for b in all_behs(3, "ptw") if b.count("w") <= 1]
+    behs3 = all_behs(3) if thorough else all_behs(3, "pt") + ["wpp", "pwp", "ppw"]
     jobs = [job(3, imp, behs3, ["a", "a", "b", "b"], fam="n3") for imp in g3]
     fams.append(("n3", "n=3: all %d ordered-import-list graphs in which the history entries reach every module (of 4096; the others are n<=2 "
                  "configurations plus a dead module) x %s x history [a,a,b,b] (entry a then b w.l.o.g.: the space is closed under renaming), "
-                 "immediate loader" % (len(g3), "4^3 behaviours" if thorough else "the 20 behaviours over {p,t,w} with at most one awaiting module"), jobs))
+                 "immediate loader" % (len(g3), "4^3 behaviours" if thorough else "the 11 behaviours {p,t}^3 + {wpp,pwp,ppw}"), jobs))
 
     # F4: n = 3 edge kinds (thorough): every graph x one edge varied x behaviours {ppp, pwp}
     if thorough:
@@ -144,19 +144,25 @@ def families(tier):
             jobs.append(job(3, imp, ["ppp"], ["a"], sched="all", fam="n3sched"))
     fams.append(("n3sched", "n=3: every graph with 2..%d loader release orders (model count), entry a, plain bodies, EVERY release order" % bound, jobs))
 
-    # F6: n = 4 (thorough): every edge set, canonical (alphabetical) import order, <= 2 non-plain modules, history [a,a]
+    # F6: n = 4 (thorough): every edge set, canonical (alphabetical) import order, history [a,a];
+    #     <= 1 non-plain module on all edge sets, exactly 2 non-plain modules on the edge sets without self-imports
     if thorough:
-        jobs = []
-        behs4 = behs_max_nonplain(4, 2)
+        behs1 = behs_max_nonplain(4, 1)
+        behs2 = [b for b in behs_max_nonplain(4, 2) if b not in behs1]
+        jobs1, jobs2 = [], []
         total = 0
         for bits in range(1 << 16):
             imp = ["".join(M.NAMES[j] for j in range(4) if bits >> (4 * i + j) & 1) for i in range(4)]
             total += 1
             if all_reachable(4, imp, ["a"]):
-                jobs.append(job(4, imp, behs4, ["a", "a"], fam="n4"))
+                jobs1.append(job(4, imp, behs1, ["a", "a"], fam="n4"))
+                if not any(M.NAMES[i] in imp[i] for i in range(4)):
+                    jobs2.append(job(4, imp, behs2, ["a", "a"], fam="n4pairs"))
         fams.append(("n4", "n=4: all %d edge sets enumerated; the %d in which every module is reachable from the entry a are executed (the others "
-                     "are n<=3 configurations plus dead modules) x %d behaviours with <= 2 non-plain modules x history [a,a], "
-                     "alphabetical import order, immediate loader" % (total, len(jobs), len(behs4)), jobs))
+                     "are n<=3 configurations plus dead modules) x the %d behaviours with <= 1 non-plain module x history [a,a], "
+                     "alphabetical import order, immediate loader" % (total, len(jobs1), len(behs1)), jobs1))
+        fams.append(("n4pairs", "n=4: the %d of those edge sets that have no self-import x the %d behaviours with exactly 2 non-plain modules "
+                     "(self-imports are no-ops for evaluation and are covered for n<=3 and in part n4)" % (len(jobs2), len(behs2)), jobs2))
     return fams
 
 
@@ -214,6 +220,10 @@ def _work(args):
             continue
         sc = M.schedule_count(j["n"], j["imp"], j["hist"], j["pre"])[0] if j["sched"] == "all" else None
         for beh, o in zip(j["behs"], r["r"]):
+            if isinstance(o, str):
+                o = M.canon(o)
+            else:
+                o["outs"] = merge_outs([[c, f, M.canon(x)] for c, f, x in o["outs"]])
             exp = expected_of(j, beh, perturb)
             stats["cases"] += 1
             outcomes.add(_h(exp))
@@ -240,6 +250,18 @@ def _work(args):
                     if out != exp:
                         bad.append((ji, beh, out, exp, cnt, first, classify(j, beh, out, perturb)))
     return stats, outcomes, bad
+
+
+def merge_outs(outs):
+    m = []
+    for c, f, x in outs:
+        for e in m:
+            if e[2] == x:
+                e[0] += c
+                break
+        else:
+            m.append([c, f, x])
+    return m
 
 
 def single_job(j, beh, first=None):
@@ -337,7 +359,7 @@ def explore(chk, perturb=None, collect=None):
                             got = r.get("r", [r.get("completion")])[0]
                             if isinstance(got, dict):
                                 got = got["outs"][0][2]
-                            if got != obs:
+                            if M.canon(got) != obs:
                                 raise core.MachineryError("nondeterministic replay of %s: %r vs %r" % (describe(j, beh), obs, got))
                 for (j, beh, obs, exp, cnt, first, cls), (case, o, is_known) in zip(bad, keyed):
                     if not is_known:
@@ -393,7 +415,8 @@ def run(chk):
         "reference model = ES2024 16.2.1.5 with three documented readings ([[CycleRoot]] of sync-failed modules = itself, twice; finished async "
         "modules are not waited for), cross-validated against node vm.SourceTextModule at authoring time (oracle/c17-node-xval.json)",
         "module bodies are the generated pre/post bodies with `await 0` as the only await; errors are thrown strings",
-        "n=3 uses entry a only (space closed under renaming); n=4 uses alphabetical import order and <= 2 non-plain modules",
+        "n=3 uses entry a then b only (space closed under renaming); n=4 uses alphabetical import order, <= 2 non-plain modules, and for exactly 2 "
+        "non-plain modules only the edge sets without self-imports (cost: thorough must stay below 20 min)",
         "loader release orders: complete for n<=2 and for the n=3 graphs listed in part n3sched; all other families use the immediate loader",
         "up to %d consecutive executions of one graph job share a Context (fresh modules and loader state; fresh Context after a panic); family "
         "`fresh` is the control with one Context per execution; new mismatches are re-executed alone in clean processes before being reported" % REUSE,
@@ -413,10 +436,10 @@ def replay(rep):
         print("--- module %s\n%s" % (M.NAMES[i], s), end="")
     print("expected:", exp)
     if isinstance(got, dict):
-        ok = all(o[2] == exp for o in got["outs"]) and not got["capped"]
+        ok = all(M.canon(o[2]) == exp for o in got["outs"]) and not got["capped"]
         for cnt, first, out in got["outs"]:
             print("observed (%d loader orders, first %s): %s" % (cnt, first, out))
     else:
-        ok = got == exp
+        ok = M.canon(got) == exp
         print("observed:", got)
     return 0 if ok else 1
